@@ -201,6 +201,19 @@ def check_queries(ctx, srcs, what: str, expect_index_error=None, pack_check=None
                 ctx.dist["output checked: normal form and well formed"] += 1
         else:
             ctx.dist["wfq: outside (operator name as a value, operator call of another shape)"] += 1
+    if pack_check is not None:
+        # hypothesis and conclusion of typed_normal_form_constructions / simplify_pack_chain_eliminated on the REAL output:
+        # does it obey the pack-chain discipline (shapeOf), and where it does, are constructions in result position only
+        res_sh = ctx.driver.batch([("shape", [o]) for _, o in outs])
+        for (i, o), r in zip(outs, res_sh):
+            if r[0] != "ok":
+                continue
+            kind, res_ok, no_lit = r[1].split(" ")
+            ctx.dist[f"shape of the real output: {'obeys the pack-chain discipline, ' + ('pack-free' if kind == 'opq' else 'a pack (final result)') if kind != 'none' else 'outside the discipline (theorem does not apply)'}"] += 1
+            if kind != "none" and i in res_nf and tuple(res_nf[i]) == ("ok", "true"):
+                if res_ok != "true" or (kind == "opq" and no_lit != "true"):
+                    ctx.violate({"src": keep[i][0], "out": o[:600]},
+                                "C14: the simplified query obeys the pack-chain discipline and is a normal form, yet a construction remains outside the final result (typed_normal_form_constructions)")
     res_ck = ctx.driver.batch([("simpCk", a) for _, a in reqs])
     for (src, _, _, _), r0, r1 in zip(keep, res, res_ck):
         if r1[0] == "err" and "side-condition:" in r1[1]:
